@@ -66,6 +66,10 @@ def job_handler(prop):
                     agg.setdefault('notes', []).extend(res['notes'])
                 break
             ci = res.get('case', -1)
+            if res.get('status') in ('crash', 'hang') and str(res.get('stage', '')).startswith('synth'):
+                # the input was still being synthesised (or its first load faulted): a rejected input, not a verdict
+                agg['rejected'] = agg.get('rejected', 0) + 1
+                break
             agg['fails'].append({'case': ci if ncases is not None else None, 'res': res})
             if ncases is not None and 0 <= ci < ncases - 1:
                 frm = ci + 1
@@ -94,10 +98,14 @@ def run_check(prop, tier):
         failures = []  # (job, fail)
         ubsan_first = None
         notes = []
+        rejected_inputs = 0
         for job, agg in zip(jobs, results):
             if agg is None:
                 continue
             runs += agg['runs']
+            rejected_inputs += agg.get('rejected', 0)
+            if agg.get('info') and isinstance(agg['info'], dict) and agg['info'].get('rejected_init'):
+                rejected_inputs += 1
             steps += agg['steps']
             ubsan_obs += agg['ubsan']
             ubsan_first = ubsan_first or agg.get('ubsan_first')
@@ -153,7 +161,7 @@ def run_check(prop, tier):
         for cls, items in violations[:6]:
             job, f, excerpt = items[0]
             runner = pool.workers[0].run
-            mplan, reruns = report.minimise(job['plan'], cls, prop, runner, fail_case=f['case'])
+            mplan, reruns = report.minimise(job['plan'], cls, prop, runner, fail_case=f['case'], budget=10 if '/hang@' in cls else 250)
             path, why = report.gate_and_write(mplan, cls, prop, excerpt, seed, 'v%d' % len(reported))
             if path is None:
                 # try the unminimised single-case plan before giving up
@@ -194,6 +202,7 @@ def run_check(prop, tier):
             'probes': probes,
             'probes_stuck_at_zero': zero_probes,
             'jobs_skipped_by_wall_cap': skipped,
+            'rejected_inputs': rejected_inputs,
             'components': COMPONENTS,
             'known_findings_hit': known_hits,
             'violations_reported': reported,
